@@ -15,7 +15,7 @@ def gen_pair(rng):
     nv = rng.randint(1, 4)
     vs = gen.VARS[:nv]
     mode = rng.choice(["unrelated", "weakening", "farkas", "equal", "separated", "unbounded", "empty_left", "empty_right",
-                       "sublist", "self", "empty_left_constant_row", "sublist_of_right", "chain"])
+                       "sublist", "self", "empty_left_constant_row", "sublist_of_right", "chain", "repeated_left_same_length"])
     p = gen.rand_point(rng, vs)
     A = [gen.rand_term(rng, vs, "dyadic", point=p) for _ in range(rng.randint(1, 4))]
     if mode == "unrelated":
@@ -57,6 +57,15 @@ def gen_pair(rng):
         A = [({x: F(1), y: F(-1)}, c1), ({y: F(1)}, c2)] + ([gen.rand_term(rng, vs[2:], "dyadic")] if nv > 2 and rng.random() < 0.5 else [])
         rng.shuffle(A)
         B = [({x: F(1)}, c1 + c2 + F(rng.choice([0, 0, 1, -1]), 2))]
+    elif mode == "repeated_left_same_length":
+        # the left states a term twice; the right has as many entries: the left's distinct terms plus really restricting ones
+        A = A[:rng.randint(1, 2)]
+        A = A + [rng.choice(A) for _ in range(rng.randint(1, 2))]
+        rng.shuffle(A)
+        distinct = [t for i, t in enumerate(A) if t not in A[:i]]
+        B = distinct + [gen.rand_term(rng, vs, "dyadic", point=gen.rand_point(rng, vs)) for _ in range(len(A) - len(distinct))]
+        if rng.random() < 0.5:
+            rng.shuffle(B)
     elif mode == "sublist":
         B = rng.sample(A, rng.randint(1, len(A)))
     else:
@@ -109,6 +118,13 @@ def check(ctx):
         if okind == "ok" and verdict == "violated" and v is True:
             payload["witness"] = {kk: str(x) for kk, x in w[1].items()}
             ctx.violation("refines:true_on_violated", "refines answered True although a point violates the right side", payload)
+        # the operator form on the lists (TermList.__le__) is the same relation
+        okind2, v2, _ = pp.observe(lambda: a <= b)
+        if okind2 == "ok" and verdict == "violated" and v2 is True:
+            ctx.violation("refines:le_true_on_violated", "the <= operator on constraint lists answered True although a point violates the right side",
+                          dict(payload, le_answer=v2, witness={kk: str(x) for kk, x in w[1].items()}))
+        if okind2 == "ok" and verdict == "contained" and v2 is False:
+            ctx.violation("refines:le_false_on_contained", "the <= operator on constraint lists answered False although containment holds exactly", dict(payload, le_answer=v2))
         if k < 2:
             ctx.sample(payload)
     # contract level: <=, contains_environment / contains_implementation, interface mismatch
